@@ -992,10 +992,12 @@ def _flow_model_input(case):
     wire = edit_lines(plans[0]) + (["roundtrip"] if trip.get("wire") else [])
     again = []
     for k, r in enumerate(case.get("rerun", [])):
+        if r["heal"]:
+            again.append("heal " + " ".join(str(i) for i in r["heal"]))  # first the repair, then the edits, as on the real objects
         again += edit_lines(plans[k + 1])
         if trip.get("between"):
             again.append("roundtrip")
-        again.append((f"rerun {MODEL_FUEL} " + " ".join(str(i) for i in r["heal"])).strip())
+        again.append(f"rerun {MODEL_FUEL}")
     if case.get("host") != "macro":
         return lines + wire + [f"run {MODEL_FUEL}"] + again
     ui = f" {len(case['nodes'])}" if case.get("ui") else ""
